@@ -153,7 +153,7 @@ def run_impl(harness, cases, mode="jit", nproc=None, stall_s=90, fn="impl"):
     n = len(cases)
     if n == 0:
         return []
-    nproc = max(1, min(nproc or os.cpu_count() or 4, (n + 7) // 8))
+    nproc = max(1, min(nproc or int(os.environ.get("VERIF_NPROC", "0") or 0) or os.cpu_count() or 4, (n + 7) // 8))
     shards = [list(range(k, n, nproc)) for k in range(nproc)]
     results = [None] * n
     env = dict(os.environ)
